@@ -7,7 +7,8 @@
    implementation's own output) return 6 when the property is false, 12 when the instance is outside the documented
    format, 10 when the property holds only within the stated float tolerance (counted, not a failure).  0 = fine. *)
 From Coq Require Import ZArith QArith Qround List Bool Lia Arith.
-From RL4CO Require Import Base.Num Env.CVRP Env.CVRPProofs Data.GenRouting.
+From RL4CO Require Import Base.Num Env.CVRP Env.CVRPProofs Data.GenRouting Data.GenRouting2.
+From RL4CO Require Env.TSP Env.TSPProofs Env.MTSP Env.MTSPProofs Env.PCTSP Env.PCTSPProofs Env.MDCPDP Env.MDCPDPDefs.
 Import ListNotations.
 Open Scope Z_scope.
 
@@ -55,7 +56,9 @@ Definition check_cvrptw (c : Q * list (Q * Q * Q * Q) * list (Z * Z)) : Z :=
   let w := gen_cvrptw T cust in
   judge (list_eqb zz_eqb w obs)
         (zz_eqb (hd (1, 0) obs) (cvrptw_depot_window T) && (length obs =? S (length cust))%nat &&
-         forallb (fun cw => let '(d, dur, _, _) := fst cw in cvrptw_customer_okb T d dur (snd cw)) (combine cust (tl obs))).
+         (* judged against the deadline the environment will read: the EMITTED depot window end *)
+         forallb (fun cw => let '(d, dur, _, _) := fst cw in cvrptw_customer_okb (inject_Z (snd (hd (1, 0) obs))) d dur (snd cw))
+                 (combine cust (tl obs))).
 (* property on a generated row (windows may be scaled floats): per customer (d, dur, lo, hi); H = depot deadline *)
 Definition cvrptw_okq (tol H d dur lo hi : Q) : bool :=
   Qle_bool 0 lo && negb (Qle_bool hi lo) && Qle_bool d (hi + tol) && Qle_bool (hi + dur + d) (H + tol).
@@ -141,6 +144,41 @@ Definition check_op_prop (c : nat * Q * list Q) : Z :=
        | S O => 0
        | _ => if existsb (fun p => Qeq_bool p 1) ps then 0 else 6
        end.
+
+(* ------------------------------------------------------------------ PCTSP / SPCTSP, TSP, mTSP, MDCPDP *)
+(* PCTSP on chosen draws: (tol, num_loc, max_penalty override, penalty_factor, observed generator.max_penalty,
+   draws (rp, rd, rs) per customer, observed (penalty, deterministic_prize, stochastic_prize) per customer) *)
+Definition check_pctsp (c : Q * Z * option Q * Q * Q * list (Q * Q * Q) * list (Q * Q * Q)) : Z :=
+  let '(tol, n, ovr, factor, omax, draws, obs) := c in
+  let mp := pctsp_max_penalty ovr n factor in
+  let model := map (fun t => let '(rp, rd, rs) := t in (pctsp_penalty mp rp, pctsp_det n rd, pctsp_sto n rd rs)) draws in
+  let close3 a b := let '(a1, a2, a3) := a in let '(b1, b2, b3) := b in q_close tol a1 b1 && q_close tol a2 b2 && q_close tol a3 b3 in
+  judge (q_close tol mp omax && list_eqb close3 model obs)
+        (Qle_bool 0 omax && (length obs =? length draws)%nat &&
+         forallb (fun o => let '(p, dp, sp) := o in
+                    Qle_bool 0 p && Qle_bool p (omax + tol) && Qle_bool 0 dp && Qle_bool dp (4 / inject_Z n + tol)
+                    && Qle_bool 0 sp && Qle_bool sp (2 * dp + tol)) obs).
+(* generated rows, scaled integers, judged by the environments' own predicates *)
+Definition check_pctsp_prop (c : bool * Z * Z * list Z * list Z * list Z) : Z :=
+  let '(st, sc, maxpen, dp, sp, pn) := c in
+  let i := {| PCTSP.dprize := dp; PCTSP.sprize := sp; PCTSP.stoch := st; PCTSP.pen := pn; PCTSP.pdist := []; PCTSP.preq := sc; PCTSP.pthr := sc |} in
+  if negb (PCTSPProofs.pctsp_wfb i) then 12
+  else if forallb (fun x => 0 <=? x) (dp ++ sp ++ pn) && forallb (fun x => x <=? maxpen) pn then 0 else 6.
+Definition check_tsp_prop (c : list (list Z)) : Z := if TSPProofs.tsp_wfb (gen_tsp c) then 0 else 12.
+Definition check_mtsp_prop (c : Z * Z * Z * list (list Z)) : Z :=
+  let '(lo, hi, k, D) := c in
+  let i := gen_mtsp k D in
+  if negb (MTSPProofs.mtsp_wfb i) then 12 else if (lo <=? k) && (k <=? hi) && MTSPProofs.mtsp_solvableb i then 0 else 6.
+(* MDCPDP: (num_loc argument, num_depot, min_capacity, max_capacity, capacity row, distance matrix, one, lateness weight) *)
+Definition check_mdcpdp_prop (c : nat * nat * Z * Z * list Z * list (list Z) * Z * Z) : Z :=
+  let '(n, nd, lo, hi, cps, D, one, lw) := c in
+  match cps with
+  | [cp] =>
+      let i := gen_mdcpdp n nd cp D one lw false 0 in
+      if negb (MDCPDPDefs.md_wfb i) then 12
+      else if MDCPDPDefs.md_solvableb i && (lo <=? cp) && (cp <=? hi) then 0 else 6
+  | _ => 12
+  end.
 
 (* ------------------------------------------------------------------ SVRP / PDP *)
 Definition check_svrp (c : list Q * list Q * list Q * list Q) : Z :=
